@@ -39,7 +39,7 @@ def int_values(pat, maxlen=4):
     return {int(s) for s in strings(maxlen) if pat.fullmatch(s) and INT.fullmatch(s)}
 
 
-def representable(pat, v, maxpad=4):
+def representable(pat, v, maxpad=10):
     digs = str(abs(v))
     signs = (["", "+"] if v >= 0 else ["-"]) + (["-"] if v == 0 else [])
     return any(pat.fullmatch(sg + "0" * pad + digs) for sg in signs for pad in range(maxpad + 1))
